@@ -999,6 +999,11 @@ func (fc *funcContext) delegatedCall(expr *ast.CallExpr) (callable *expression, 
 		Args:     callArgs,
 		Ellipsis: expr.Ellipsis,
 	}
+	if id, ok := astutil.RemoveParens(expr.Fun).(*ast.Ident); ok && isBuiltin && id.Name == "recover" {
+		// A deferred recover() is not called by a deferred function, it is the
+		// deferred call itself: it returns nil and does not stop a panic.
+		return fc.formatExpr("function() {}"), fc.formatExpr("[]")
+	}
 	callable = fc.formatExpr("function(%s) { %e; }", strings.Join(vars, ", "), wrapper)
 	arglist = fc.formatExpr("[%s]", strings.Join(args, ", "))
 	return callable, arglist
